@@ -70,6 +70,25 @@ RESULT
   panics                      panic messages seen in the process during the scenario
   self_pid, helper_pid, proxy_port, stray_upstream
 Files: <ctx.scratch>/e2e.<n>/{logs,events,keys}/, agent_stdout.log (the agent's console log), proxy-agent.json.
+
+EXTENSIONS (added for C05/C14/C15; all optional, absent = the behaviour described above)
+  REQUEST   gen_body {"len": n, "seed": s, "chunk_sizes": [..]|None}   after `raw` (which then is only the head,
+            carrying Content-Length: n or Transfer-Encoding: chunked as the test wants) the driver sends n
+            pattern bytes (gen_body_bytes(n, s)), plain or chunk-encoded with the given sizes (last repeats) --
+            generated inside the driver, so 100 MiB bodies never pass through JSON.  The response is read WHILE
+            the body is written; writing stops once a complete response has arrived.  Extra response keys:
+            write_completed (bool), write_error, sent_body (body bytes handed to the socket).
+            write_sizes [n..] + write_pause_ms (default 1)   deliver `raw` in TCP writes of these sizes (last
+            repeats) with a flush and a pause between them (also switches to the concurrent write/read path).
+  REPLY     write_sizes [n..] + write_pause_ms   the same for a mock host's reply (adversarial frame boundaries:
+            hyper's client sees the reply in these pieces).
+  SCENARIO  upstream_capture: n   the mock hosts parse incrementally (no quadratic rescans, no 100 MiB copies):
+            upstream[host][i]["bytes"] keeps only the first n bytes of the connection, "nbytes" is still the
+            total, and "request_info" lists per complete request {start, head_end, end, head (bytes),
+            body_len, body_crc32 (zlib.crc32 of the DECODED body), chunked, chunks}.  Reply "match" then sees
+            the request head only.
+  helpers   gen_body_bytes(n, seed) -> bytes ; gen_body_crc32(n, seed) -> int ; head_only(raw) -> raw up to and
+            including the blank line
 """
 import base64
 import json
@@ -128,6 +147,22 @@ def http_request(method, target, headers=(), body=b"", version="HTTP/1.1", chunk
     elif (body or method in ("POST", "PUT")) and "content-length" not in names and "transfer-encoding" not in names:
         lines.append("Content-Length: %d" % len(body))
     return ("\r\n".join(lines) + "\r\n\r\n").encode("latin-1") + out_body
+
+
+def gen_body_bytes(n, seed=0):
+    """the body the driver generates for gen_body {"len": n, "seed": seed}: byte i = ((i % 251) + seed) % 256"""
+    period = bytes(((j + seed) % 256) for j in range(251))
+    return (period * (n // 251 + 1))[:n]
+
+
+def gen_body_crc32(n, seed=0):
+    import zlib
+    return zlib.crc32(gen_body_bytes(n, seed)) & 0xFFFFFFFF
+
+
+def head_only(raw):
+    he = raw.find(b"\r\n\r\n")
+    return raw if he < 0 else raw[:he + 4]
 
 
 def req(raw, **knobs):
